@@ -217,6 +217,18 @@ class Client:
                               f"regenerate {selections.show(s)}: unselected address {'/'.join(p)} was {world.to_py(want)}, "
                               f"now {world.to_py(got)} (branch_switch={switch})", **sig))
                 return viol
+        # every selected choice is freshly drawn: a fresh continuous draw differs from the old value
+        # (exact, probability 1) - also decidable without the SCRIPTED seam
+        for p in S:
+            old_v, new_v = ref.get_path(self.ch, p), ref.get_path(ch2, p)
+            if old_v is None or new_v is None:
+                continue
+            kinds = {progs.DISTS[d]["kind"] for d, _ in ref.path_info(model, p)}
+            if kinds == {"c"} and np.asarray(old_v).size and np.any(np.asarray(old_v) == np.asarray(new_v)):
+                viol.append(V("wrong_choices", "selected_freshly_drawn",
+                              f"regenerate {selections.show(s)}: selected continuous address {'/'.join(p)} kept (part of) its old "
+                              f"value {world.to_py(old_v)} -> {world.to_py(new_v)}", **sig))
+                return viol
         if not switch:
             d_joint = r_new.logp - r_old.logp
             sel_new = sum(x["logp"] for x in r_new.sites if x["live"] and tuple(x["path"]) in S)
